@@ -16,8 +16,8 @@ pub fn judge(ctx: &Ctx, l: &mut Local, p: &Params, site: Site, date: NaiveDate) 
     let pol = p.extreme_latitude_method;
     let mut p0 = p.clone();
     p0.extreme_latitude_method = None;
-    let r0 = prayer_times_dt(&p0, site.loc(), date, Option::None);
-    let r = prayer_times_dt(p, site.loc(), date, Option::None);
+    let r0 = pt(&p0, site.loc(), date, Option::None);
+    let r = pt(p, site.loc(), date, Option::None);
     l.evals += 2;
     let case = || PtCase::new(p, site, date);
     let k = |pr: Prayer| format!("{:?}_{}", pr, case().key());
@@ -33,7 +33,7 @@ pub fn judge(ctx: &Ctx, l: &mut Local, p: &Params, site: Site, date: NaiveDate) 
     let mut p_ang = p0.clone();
     p_ang.intervals.insert(Fajr, 0.0);
     p_ang.intervals.insert(Isha, 0.0);
-    let r_ang = if has_int { l.evals += 1; prayer_times_dt(&p_ang, site.loc(), date, Option::None) } else { r0.clone() };
+    let r_ang = if has_int { l.evals += 1; pt(&p_ang, site.loc(), date, Option::None) } else { r0.clone() };
     let any_missing = SIX.iter().any(|pr| r_ang[pr].is_err());
     let mut engaged = false;
     let mut expect = |pr: Prayer, want: Option<f64>, what: &str, l: &mut Local| {
@@ -53,9 +53,9 @@ pub fn judge(ctx: &Ctx, l: &mut Local, p: &Params, site: Site, date: NaiveDate) 
         NearestLatitudeAllPrayersAlways(sub) | NearestLatitudeFajrIshaAlways(sub) | NearestLatitudeFajrIshaInvalid(sub) => {
             let sub = f64::from(sub);
             let sub_site = Site::new(sub, site.lon, site.elev, site.gmt);
-            let rs = prayer_times_dt(&p0, sub_site.loc(), date, Option::None);
+            let rs = pt(&p0, sub_site.loc(), date, Option::None);
             l.evals += 1;
-            let rs_ang = if has_int { l.evals += 1; prayer_times_dt(&p_ang, sub_site.loc(), date, Option::None) } else { rs.clone() };
+            let rs_ang = if has_int { l.evals += 1; pt(&p_ang, sub_site.loc(), date, Option::None) } else { rs.clone() };
             let all = matches!(pol, NearestLatitudeAllPrayersAlways(_));
             let inv = matches!(pol, NearestLatitudeFajrIshaInvalid(_));
             for pr in SIX {
